@@ -68,6 +68,7 @@ def parseInitCall : List String → Option Flow.InitCall
   | ["runtimeRestoreReady"] => some .runtimeRestoreReady
   | ["cancelWithError", e] => (parseErr e).map .cancelWithError
   | ["clear"] => some .clear
+  | ["awaitRuntimeReadyExpired"] => some .awaitRuntimeReadyExpired
   | _ => none
 
 def parseInvokeCall : List String → Option Flow.InvokeCall
@@ -98,7 +99,7 @@ def flowStep (expand : List String → Option (List Flow.FOp)) (f : Flow.Flow) (
     -- the Go flow methods return the (single) gate's error or nothing
     let ret := match ops with
       | [_] => r.2
-      | _ => "-"
+      | _ => if ws == ["awaitRuntimeReadyExpired"] then s!"err{Flow.errRestoreHookTimeout}" else "-"   -- the timeout error is returned
     some (f', s!"ret={ret} ws={showFlow f'}")
 
 def initFlowModel : Model where
